@@ -207,6 +207,9 @@ func c16(c *ev.Ctx) {
 	})
 	c.Extra("exhaustive_shapes", len(jobs))
 
+	// built-ins hand back new values: the container given to them is unchanged afterwards
+	// (same printed form, same length, same iteration) - also while it is being iterated
+	c16BuiltinsKeepArgument(c, "a", func(lit string) (string, map[string]interface{}) { return "a = " + lit + "; ", nil })
 	// hashes with tied printed keys: dedicated oracle
 	for ti, h := range c16TieHashes() {
 		for prov := 0; prov < 2; prov++ {
@@ -370,4 +373,62 @@ func sameCount(a, b map[string]int) bool {
 		}
 	}
 	return true
+}
+
+// c16BuiltinsKeepArgument: for unsorted arrays / strings / hashes bound to `name` (by the
+// given setup), every built-in applied to it leaves it as it was. Shared by C16 (script
+// variables) and C04 (object fields).
+func c16BuiltinsKeepArgument(c *ev.Ctx, name string, setup func(lit string) (string, map[string]interface{})) {
+	values := []model.Value{
+		model.Arr(model.Int(3), model.Int(1), model.Int(2)), model.Arr(model.Str("pear"), model.Str("apple"), model.Str("fig"), model.Str("Apple")),
+		model.Arr(model.Int(10), model.Int(9), model.Int(100), model.Float(2.5)), model.Arr(model.Int(8), model.Int(9), model.Int(10), model.Int(11)),
+		model.Arr(model.Str("b"), model.Int(1), model.Bool(true)), model.Str("cba"), model.Arr(),
+		model.Hash(model.HashEnt{Key: model.Str("z"), Val: model.Int(1)}, model.HashEnt{Key: model.Str("a"), Val: model.Int(2)}),
+	}
+	calls := []string{"sort(%s)", "sort(%s, true)", "reverse(%s)", "reverse(%s, true)", "len(%s)", "join(%s, \",\")", "string(%s)", "keys(%s)", "type(%s)", "lower(%s)", "upper(%s)", "min(%s, %s)", "max(%s, 1)", "sprintf(\"%%v\", %s)", "split(string(%s), \",\")", "replace(%s, /a/, \"b\")", "match(%s, /a/)"}
+	for vi, v := range values {
+		lit, ok := gen.LitOf(v)
+		if !ok {
+			continue
+		}
+		prefix, obj := setup(gast.ExprText(lit))
+		if obj == nil {
+			obj = map[string]interface{}{}
+		}
+		if _, isField := obj["__field__"]; isField {
+			g, ok := eng.ToGo(v)
+			if !ok {
+				continue
+			}
+			obj = map[string]interface{}{name: g}
+		}
+		for ci, call := range calls {
+			id := fmt.Sprintf("keeparg/%s/%d/%d", name, vi, ci)
+			if !c.Want(id) {
+				continue
+			}
+			cl := strings.ReplaceAll(call, "%s", name)
+			cl = strings.ReplaceAll(cl, "%%", "%")
+			scripts := []string{
+				prefix + "before = string(" + name + "); n = len(" + name + "); x = " + cl + "; y = " + cl + "; return [before == string(" + name + "), n == len(" + name + ")];",
+				prefix + "before = string(" + name + "); seen = \"\"; foreach e in " + name + " { x = " + cl + "; seen = seen + string(e) + \"|\"; } again = \"\"; foreach e in " + name + " { again = again + string(e) + \"|\"; } return [before == string(" + name + "), seen == again];",
+			}
+			for _, sc := range scripts {
+				for _, noOpt := range []bool{false, true} {
+					evr, err := eng.New(sc, eng.Options{NoOptimize: noOpt})
+					if err != nil {
+						continue
+					}
+					o := evr.Exec(obj)
+					c.Case(sc+fmt.Sprint(noOpt), true)
+					if o.Err != nil {
+						continue // a built-in that does not accept this type: nothing to compare
+					}
+					if o.Desc() != "ARRAY:[true, true]" {
+						c.Violation(id, "a built-in changed the container it was given", map[string]interface{}{"summary": fmt.Sprintf("%s (noopt=%v) gives %s, expected [true, true] (printed form / length / iteration of %s unchanged)", sc, noOpt, o.Desc(), name), "script": sc})
+					}
+				}
+			}
+		}
+	}
 }
